@@ -1,5 +1,5 @@
 (* Proofs about the RREL evaluation model (Model/Rrel.v). *)
-From TxV Require Import Core.Base Model.RrelSyntax Model.Rrel.
+From TxV Require Import Core.Base Gen.SrcRrel Model.RrelSyntax Model.Rrel.
 
 (* ------------------------------------------------------------ primitive steps *)
 Lemma root_of_spec F m o r : root_of F m o = Some r -> is_root_of m o r.
@@ -910,3 +910,226 @@ Proof.
   - reflexivity.
   - reflexivity.
 Qed.
+
+(* ------------------------------------------------------------ facts read from the source
+   (Gen/SrcRrel.v, regenerated from textx/scoping/rrel.py on every run) against the same facts
+   observed on the model's own functions *)
+Definition obs_tbl : list orow :=
+  [ {| o_parent := None; o_name := None; o_attrs := [([97]%N, VList [1; 2])]; o_conf := [] |};
+    {| o_parent := Some 0; o_name := Some [110]%N; o_attrs := []; o_conf := [] |};
+    {| o_parent := Some 0; o_name := Some [110]%N; o_attrs := []; o_conf := [] |} ].
+
+Definition obs_pick_first : bool :=
+  match apply_nav 5 (of_table obs_tbl) [97]%N true None false (mk 0 [[110]%N] []),
+        apply_nav 5 (of_table obs_tbl) [97]%N false (Some [110]%N) false (mk 0 [] []) with
+  | SOuts [c1], SOuts [c2] => Nat.eqb (c_obj c1) 1 && Nat.eqb (c_obj c2) 1
+  | _, _ => false
+  end.
+
+Definition obs_star_local_first : bool :=
+  match fst (star_zero true true 5 (of_table obs_tbl) (fun c s => (RFound (c_obj c) [], s)) true (mk 1 [] []) st0) with
+  | RFound 1 _ => true
+  | _ => false
+  end.
+
+Definition obs_proxy_completed : bool :=
+  match proxy_path 1 [0], proxy_path 1 [0; 1], proxy_path 1 [] with
+  | [0; 1], [0; 1], [1] => true
+  | _, _, _ => false
+  end.
+
+Definition obs_nav_flags (txt : list N) : bool * bool :=
+  match parse txt with
+  | Some {| eseq := S1 (P1 (ENav _ c f)); eflags := _ |} => (c, match f with Some _ => true | None => false end)
+  | _ => (false, false)
+  end.
+
+Definition model_facts : rrel_facts := {|
+  key_has_first := true;                       (* the key form all C11 statements about completeness use *)
+  pick_first_named := obs_pick_first;
+  star_local_before_root := obs_star_local_first;
+  proxy_completed_by_target := obs_proxy_completed;
+  leaf_starts := [(sl_elem (EParent []), sr_elem (EParent []));
+                  (sl_elem (ENav [] true None), sr_elem (ENav [] true None));
+                  (sl_elem (EDots 1), sr_elem (EDots 1))];
+  nav_flags := [obs_nav_flags [97]%N; obs_nav_flags [126; 97]%N; obs_nav_flags [39; 115; 39; 126; 97]%N]
+|}.
+
+Lemma src_facts_ok : src_facts = model_facts.
+Proof. vm_compute. reflexivity. Qed.
+
+Lemma src_key_form : key_has_first src_facts = true.
+Proof. rewrite src_facts_ok. reflexivity. Qed.
+
+(* ------------------------------------------------------------ the completeness certificate *)
+Lemma pos_eqb_eq a b : pos_eqb a b = true <-> a = b.
+Proof.
+  unfold pos_eqb. revert b; induction a as [|x a IH]; intros [|y b]; split; intro H;
+    try reflexivity; try discriminate.
+  - apply andb_true_iff in H as [H1 H2]. apply Nat.eqb_eq in H1. apply IH in H2. subst; reflexivity.
+  - inversion H; subst. apply andb_true_iff. split; [apply Nat.eqb_refl | apply IH; reflexivity].
+Qed.
+
+Lemma key_eqb_eq a b : key_eqb a b = true <-> a = b.
+Proof.
+  destruct a as [[[o1 p1] l1] f1], b as [[[o2 p2] l2] f2]. unfold key_eqb. split; intro H.
+  - repeat (apply andb_true_iff in H as [H ?]).
+    apply Nat.eqb_eq in H. apply pos_eqb_eq in H2. apply Nat.eqb_eq in H1. apply Bool.eqb_prop in H0.
+    subst. reflexivity.
+  - inversion H; subst. rewrite !Nat.eqb_refl, Bool.eqb_reflx.
+    replace (pos_eqb p2 p2) with true by (symmetry; apply pos_eqb_eq; reflexivity). reflexivity.
+Qed.
+
+Section CertProofs.
+  Variable F : nat.
+  Variable m : model.
+  Variable names0 : list (list N).
+  Variable V : list (nat * list nat * nat * bool).
+  Hypothesis Huniq : siblings_unique m.
+
+  Lemma memk_In k : memk V k = true <-> In k V.
+  Proof.
+    unfold memk. rewrite existsb_exists. split.
+    - intros [x [Hx E]]. apply key_eqb_eq in E. subst. exact Hx.
+    - intro H. exists k. split; [exact H | apply key_eqb_eq; reflexivity].
+  Qed.
+
+  Lemma rule_at (g : nat * list nat * nat * bool -> bool) o pos l f :
+    forallb g (keys_at V pos) = true -> In (o, pos, l, f) V -> g (o, pos, l, f) = true.
+  Proof.
+    intros H Hin. rewrite forallb_forall in H. apply H. unfold keys_at.
+    apply filter_In. split; [exact Hin|]. simpl. apply pos_eqb_eq. reflexivity.
+  Qed.
+
+  Definition Suf (c : cfg) : Prop := exists pre, names0 = pre ++ c_names c.
+
+  Lemma sufl_suf c : Suf c -> sufl names0 (List.length (c_names c)) = c_names c.
+  Proof.
+    intros [pre E]. unfold sufl. rewrite E at 1 2. rewrite app_length.
+    replace (List.length pre + List.length (c_names c) - List.length (c_names c)) with (List.length pre) by lia.
+    rewrite skipn_app, skipn_all, Nat.sub_diag. reflexivity.
+  Qed.
+
+  Lemma Suf_extends c c' : extends m c c' -> Suf c -> Suf c'.
+  Proof.
+    intros [cons [new [H1 _]]] [pre E]. exists (pre ++ cons). rewrite E, H1, app_assoc. reflexivity.
+  Qed.
+
+  Lemma cert_sound :
+    (forall e f c c', r_elem m e f c c' ->
+       forall pos H, ck_elem F m names0 V pos e H = true -> Suf c ->
+                     In (c_obj c, pos, List.length (c_names c), f) V -> H (c_obj c') (c_names c') = true) /\
+    (forall p f c c', r_path m p f c c' ->
+       forall q i j H, ck_path F m names0 V q i j p H = true -> Suf c ->
+                       In (c_obj c, j :: i :: q, List.length (c_names c), f) V -> H (c_obj c') (c_names c') = true) /\
+    (forall sq f c c', r_seq m sq f c c' ->
+       forall q i H, ck_alts F m names0 V q i sq H = true -> Suf c ->
+                     firsts_in V q i sq (c_obj c) (List.length (c_names c)) f = true -> H (c_obj c') (c_names c') = true).
+  Proof.
+    apply r_mutind.
+    - (* parent *)
+      intros T first c p Hn pos H Hck Hs Hin. simpl in Hck. unfold base_rule in Hck.
+      pose proof (rule_at _ _ _ _ _ Hck Hin) as Hr. simpl in Hr.
+      destruct (apply_parent F m T (c_obj c)) as [r|] eqn:E; [|discriminate].
+      rewrite (apply_parent_complete _ _ _ _ Hn _ _ E) in Hr. rewrite (sufl_suf _ Hs) in Hr. exact Hr.
+    - (* dots *)
+      intros num first c p Hu pos H Hck Hs Hin. simpl in Hck. unfold base_rule in Hck.
+      pose proof (rule_at _ _ _ _ _ Hck Hin) as Hr. simpl in Hr.
+      rewrite (apply_dots_complete _ _ _ _ Hu), (sufl_suf _ Hs) in Hr. exact Hr.
+    - (* ~name *)
+      intros name first c b x Hb Hi pos H Hck Hs Hin. simpl in Hck. unfold base_rule in Hck.
+      pose proof (rule_at _ _ _ _ _ Hck Hin) as Hr. simpl in Hr. rewrite (sufl_suf _ Hs) in Hr.
+      destruct (apply_nav F m name false None first (mk (c_obj c) (c_names c) [])) as [outs| |] eqn:E; try discriminate.
+      rewrite forallb_forall in Hr.
+      apply (Hr (mk x (c_names c) [])).
+      eapply apply_nav_complete; [exact Huniq | | exact E].
+      apply (R_nav_all m name first (mk (c_obj c) (c_names c) []) b x Hb Hi).
+    - (* consuming *)
+      intros name first c b x nm rest Hb Hi Hns Hnm pos H Hck Hs Hin. simpl in Hck. unfold base_rule in Hck.
+      pose proof (rule_at _ _ _ _ _ Hck Hin) as Hr. simpl in Hr. rewrite (sufl_suf _ Hs) in Hr.
+      destruct (apply_nav F m name true None first (mk (c_obj c) (c_names c) [])) as [outs| |] eqn:E; try discriminate.
+      rewrite forallb_forall in Hr.
+      apply (Hr (mk x rest ([] ++ [x]))).
+      eapply apply_nav_complete; [exact Huniq | | exact E].
+      apply (R_nav_consume m name first (mk (c_obj c) (c_names c) []) b x nm rest Hb Hi Hns Hnm).
+    - (* fixed *)
+      intros name consume fx first c b x Hb Hi Hne Hnm pos H Hck Hs Hin. simpl in Hck. unfold base_rule in Hck.
+      pose proof (rule_at _ _ _ _ _ Hck Hin) as Hr. simpl in Hr. rewrite (sufl_suf _ Hs) in Hr.
+      destruct (apply_nav F m name consume (Some fx) first (mk (c_obj c) (c_names c) [])) as [outs| |] eqn:E; try discriminate.
+      rewrite forallb_forall in Hr.
+      apply (Hr (mk x (c_names c) ([] ++ [x]))).
+      eapply apply_nav_complete; [exact Huniq | | exact E].
+      apply (R_nav_fixed m name consume fx first (mk (c_obj c) (c_names c) []) b x Hb Hi Hne Hnm).
+    - (* brackets *)
+      intros sq first c c' _ IH pos H Hck Hs Hin. simpl in Hck.
+      apply andb_true_iff in Hck as [Hck Ha]. apply andb_true_iff in Hck as [Hb Hq].
+      pose proof (rule_at _ _ _ _ _ Hb Hin) as Hk. simpl in Hk. apply memk_In in Hk.
+      pose proof (rule_at _ _ _ _ _ Hq Hk) as Hf. simpl in Hf.
+      eapply IH; eauto.
+    - (* star: stay *)
+      intros sq c pos H Hck Hs Hin. simpl in Hck.
+      apply andb_true_iff in Hck as [Hck _]. apply andb_true_iff in Hck as [Hst _].
+      pose proof (rule_at _ _ _ _ _ Hst Hin) as Hr. simpl in Hr.
+      apply andb_true_iff in Hr as [_ Hr]. rewrite (sufl_suf _ Hs) in Hr. exact Hr.
+    - (* star: local *)
+      intros sq c Hsl pos H Hck Hs Hin. simpl in Hck.
+      apply andb_true_iff in Hck as [Hck _]. apply andb_true_iff in Hck as [Hst _].
+      pose proof (rule_at _ _ _ _ _ Hst Hin) as Hr. simpl in Hr.
+      apply andb_true_iff in Hr as [_ Hr]. apply andb_true_iff in Hr as [Hr _].
+      rewrite Hsl, (sufl_suf _ Hs) in Hr. exact Hr.
+    - (* star: root *)
+      intros sq c rt Hsr Hrt pos H Hck Hs Hin. simpl in Hck.
+      apply andb_true_iff in Hck as [Hck _]. apply andb_true_iff in Hck as [Hst _].
+      pose proof (rule_at _ _ _ _ _ Hst Hin) as Hr. simpl in Hr.
+      apply andb_true_iff in Hr as [_ Hr]. apply andb_true_iff in Hr as [_ Hr].
+      rewrite Hsr in Hr. simpl in Hr.
+      destruct (root_of F m (c_obj c)) as [rt'|] eqn:E; [|discriminate].
+      apply root_of_spec in E. rewrite (root_unique _ _ _ _ E Hrt), (sufl_suf _ Hs) in Hr. exact Hr.
+    - (* star: one more unfolding *)
+      intros sq first c c1 c2 Hr1 IH1 Hr2 IH2 pos H Hck Hs Hin.
+      pose proof Hck as Hck0. simpl in Hck.
+      apply andb_true_iff in Hck as [Hck Ha]. apply andb_true_iff in Hck as [Hst Hq].
+      pose proof (rule_at _ _ _ _ _ Hst Hin) as Hr. simpl in Hr.
+      apply andb_true_iff in Hr as [Hk _]. apply memk_In in Hk.
+      pose proof (rule_at _ _ _ _ _ Hq Hk) as Hf. simpl in Hf.
+      pose proof (IH1 _ _ _ Ha Hs Hf) as Hn. unfold hnext in Hn. apply memk_In in Hn.
+      destruct (r_extends m) as [_ [_ Hes]].
+      eapply IH2; [exact Hck0 | eapply Suf_extends; [eapply Hes; eauto | exact Hs] | exact Hn].
+    - (* P1 *)
+      intros e first c c' _ IH q i j H Hck Hs Hin. simpl in Hck. eapply IH; eauto.
+    - (* PCons *)
+      intros e p first c c1 c2 Hr1 IH1 _ IH2 q i j H Hck Hs Hin. simpl in Hck.
+      apply andb_true_iff in Hck as [He Hp].
+      pose proof (IH1 _ _ He Hs Hin) as Hn. unfold hnext in Hn. apply memk_In in Hn.
+      destruct (r_extends m) as [Hee _].
+      eapply IH2; [exact Hp | eapply Suf_extends; [eapply Hee; eauto | exact Hs] | exact Hn].
+    - (* S1 *)
+      intros p first c c' _ IH q i H Hck Hs Hf. simpl in Hck, Hf. apply memk_In in Hf. eapply IH; eauto.
+    - (* SCons head *)
+      intros p sq first c c' _ IH q i H Hck Hs Hf. simpl in Hck, Hf.
+      apply andb_true_iff in Hck as [Hp _]. apply andb_true_iff in Hf as [Hf _]. apply memk_In in Hf.
+      eapply IH; eauto.
+    - (* SCons tail *)
+      intros p sq first c c' _ IH q i H Hck Hs Hf. simpl in Hck, Hf.
+      apply andb_true_iff in Hck as [_ Ha]. apply andb_true_iff in Hf as [_ Hf].
+      eapply IH; eauto.
+  Qed.
+End CertProofs.
+
+(* a closed set of visited keys leaves no room for a justified result *)
+Lemma closure_complete F m sq o names T V :
+  siblings_unique m -> closure_ok F m names V sq o T = true ->
+  forall t tr, ~ justified m sq o names T t tr.
+Proof.
+  intros Hu Hc t tr [Hr Hconf]. unfold closure_ok in Hc. apply andb_true_iff in Hc as [Hf Ha].
+  destruct (cert_sound F m names V Hu) as [_ [_ Hs]].
+  assert (H := Hs _ _ _ _ Hr [] 0 (hfinal m T) Ha).
+  simpl in H. unfold hfinal in H. rewrite Hconf in H.
+  assert (E : true = false); [|discriminate].
+  symmetry. rewrite <- (negb_involutive false). simpl. rewrite <- H; [reflexivity | exists []; reflexivity | exact Hf].
+Qed.
+
+Lemma find_certified_complete F m kf sq o names T :
+  siblings_unique m -> find_certified F m kf sq o names T = true ->
+  forall t tr, ~ justified m sq o names T t tr.
+Proof. intros Hu H. eapply closure_complete; eauto. Qed.
